@@ -116,12 +116,25 @@ class HGen:
 
     def op_sched(self, pure=False, scheduler=None, items=()):
         name = self.fresh('S')
-        forever = (not pure) and self.rng.random() < 0.1
+        rng = self.rng
+        forever = (not pure) and rng.random() < 0.1
+        items = list(items)
+        if not items and rng.random() < 0.3:
+            # constructor given free jobs / a sequence of free jobs directly
+            free = [j for j in self.free_jobs() if self.m.kind[j] == 'job']
+            items = rng.sample(free, min(len(free), rng.choice((1, 2))))
         its = [self.ref(i) for i in items]
+        if its and rng.random() < 0.3:
+            its.insert(rng.randrange(len(its) + 1), self.none())
+        required = None
+        if scheduler is not None and rng.random() < 0.3:
+            mem = sorted(self.m.members[scheduler], key=self.order_key)
+            if mem:
+                required = self.arg_of([rng.choice(mem)])
         self.emit({"op": "sched", "name": name, "pure": pure, "items": its,
-                   "forever": forever, "required": None,
+                   "forever": forever, "required": required,
                    "scheduler": scheduler})
-        self.m.new_sched(name, pure, its, forever, None, scheduler)
+        self.m.new_sched(name, pure, its, forever, required, scheduler)
         for i in self.m.members[name]:
             self.owner[i] = name
         if scheduler:
@@ -158,6 +171,13 @@ class HGen:
         if more and self.rng.random() < 0.4:
             names.append(self.rng.choice(more))
         arg = self.arg_of(names)
+        if self.rng.random() < 0.15:
+            # name a requirement through a sequence (stands for its last job)
+            seqs = [q for q in self.seqs() if self.m.seq[q]
+                    and self.m.seq[q][-1] != later]
+            if seqs:
+                arg = {"t": self.rng.choice(("list", "tuple")),
+                       "items": [arg, self.ref(self.rng.choice(seqs))]}
         if self.rng.random() < 0.1:
             arg = {"t": "list", "items": [arg, self.ref(later)]}   # self
         self.emit({"op": "requires", "job": later, "arg": arg,
